@@ -111,6 +111,8 @@ func (env *Env) eval(e *Expr) Value {
 		case "*":
 			v := env.eval(e.Args[0])
 			return env.st.load(env.st.asPointer(v))
+		case "&":
+			return env.addrOf(e.Args[0])
 		}
 	case EBin:
 		return env.binary(e)
@@ -1050,4 +1052,48 @@ func (env *Env) ncalls(arg *Expr) Value {
 		return Value{T: mathInt, Tm: Select(h, p.Ref)}
 	}
 	panic(specErr("ncalls(%s)", arg))
+}
+
+// addrOf: &x.f for a field f (possibly nested) of a struct reached through a pointer
+func (env *Env) addrOf(e *Expr) Value {
+	if e.Kind != ESel {
+		panic(specErr("& is supported on field selections only: %s", e))
+	}
+	var base *Pointer
+	var baseT types.Type
+	inner := e.Args[0]
+	if inner.Kind == ESel {
+		// maybe a nested struct field: try address of the inner selection first when it is a struct value
+		iv := func() (v Value, ok bool) {
+			defer func() {
+				if r := recover(); r != nil {
+					ok = false
+				}
+			}()
+			return env.addrOf(inner), true
+		}
+		if v, ok := iv(); ok {
+			if pt, ok2 := types.Unalias(v.T).Underlying().(*types.Pointer); ok2 {
+				if _, isStruct := types.Unalias(pt.Elem()).Underlying().(*types.Struct); isStruct {
+					base = v.Ptr
+					baseT = pt.Elem()
+				}
+			}
+		}
+	}
+	if base == nil {
+		x := env.eval(inner)
+		pt, ok := types.Unalias(x.T).Underlying().(*types.Pointer)
+		if !ok {
+			panic(specErr("&%s: base is not a pointer", e))
+		}
+		base = env.st.asPointer(x)
+		baseT = pt.Elem()
+	}
+	f, idx := findField(baseT, e.Op)
+	if f == nil || len(idx) != 1 {
+		panic(specErr("&%s: no such field", e))
+	}
+	np := base.extend(PStep{Field: idx[0], T: baseT})
+	return Value{T: types.NewPointer(f.Type()), Ptr: np}
 }
